@@ -1,4 +1,4 @@
-import ChiProofs.Lemmas.MechConfigCanon
+import ChiProofs.Lemmas.MechConfigCount
 
 /-!
 # C11 — mechanistic model behaviour depends only on its final configuration; copies are independent
@@ -89,18 +89,22 @@ theorem C11_admin_rejects_missing_outputs (s : MState) (a : Admin) (hp : b.pkpd 
 /-! ## "a freshly created model to which only the net configuration is applied" -/
 
 /-- the canonical calls (route, parameter names, outputs, output names, regimen, sensitivities, wrap, fix,
-sensitivities through the wrapper) are accepted by the configuration machine and reach exactly `c`, for
+sensitivities through the wrapper) are accepted by the configuration machine and reach exactly `c` — up to
+the unobservable residue `_n_sensitivity_parameters`, which is that of a new object (`normCount`) — for
 every configuration satisfying `Canon` (a decidable condition on `c`: valid route, dictionaries keyed by
 the parameters / outputs, non-default displayed names distinct and not default names, outputs exist,
 regimen presupposes a route, selections expressible by displayed names). -/
 theorem C11_canonical_reaches (c : Config) (h : Canon b c) :
-    net b (initCfg b) (canonical b c) = c :=
+    net b (initCfg b) (canonical b c) = normCount c :=
   canonical_reaches b c h
 
-/-- … so the object `fresh c` of the theorems above *is* a new object after those calls -/
-theorem C11_fresh_by_canonical_calls (c : Config) (h : Canon b c) :
-    run b (initObj b) (canonical b c) = fresh b c := by
-  rw [C11_net_config_state, C11_canonical_reaches b c h]
+/-- … so the new object after those calls is `fresh c` with a new object's residue, and behaves as `fresh c` -/
+theorem C11_fresh_by_canonical_calls (c : Config) (h : Canon b c) (h4 : Inv4 c) :
+    run b (initObj b) (canonical b c) = fresh b (normCount c) ∧
+    observe b (run b (initObj b) (canonical b c)) = observe b (fresh b c) := by
+  have h1 : run b (initObj b) (canonical b c) = fresh b (normCount c) := by
+    rw [C11_net_config_state, C11_canonical_reaches b c h]
+  exact ⟨h1, by rw [h1]; exact observe_normCount b c h4⟩
 
 /-- the structural half of `Canon` holds after **every** history (valid route, parameter dictionary keyed by
 the parameters, outputs exist, output dictionary keyed by the outputs, a regimen presupposes a route); what
@@ -116,13 +120,42 @@ theorem C11_canon_structural (ops : List Op) (hw : b.WF) :
   have h1 := inv_net b ops _ (inv_init_weak b)
   exact ⟨h3.adm, h1.keys, h1.outs, h3.okeys, h3.reg⟩
 
-/-- **C11 as the property text has it**: after any history, the object equals a freshly created object
-to which the canonical calls of the net configuration are applied — whenever the net configuration
-satisfies `Canon` (evaluated by the harness on every generated history; it can fail only through
-displayed names that collide with default names or with each other across several renamings). -/
+/-- **C11 as the property text has it**: after any history, everything observable of the object —
+names, counts, outputs, reported regimen, sensitivity flag, the solver calls of a `simulate`, the shapes
+returned for an empty time grid — is that of a freshly created object to which the canonical calls of the
+net configuration are applied, whenever the net configuration satisfies `Canon` (evaluated by the harness
+on every generated history; it can fail only through displayed names that collide with default names or
+with each other across several renamings). -/
 theorem C11_net_config_by_calls (ops : List Op) (h : Canon b (net b (initCfg b) ops)) :
-    run b (initObj b) ops = run b (initObj b) (canonical b (net b (initCfg b) ops)) := by
-  rw [C11_fresh_by_canonical_calls b _ h, C11_net_config_state]
+    observe b (run b (initObj b) ops)
+      = observe b (run b (initObj b) (canonical b (net b (initCfg b) ops))) := by
+  rw [(C11_fresh_by_canonical_calls b _ h (inv4_net b ops _ (inv4_init b))).2, C11_net_config_state]
+
+/-! ## `_n_sensitivity_parameters` and the empty time grid (hidden state since 3790485) -/
+
+/-- **every history**: while sensitivities are enabled, `_n_sensitivity_parameters` is the number of
+parameters the solver object was built to differentiate with respect to — whatever was selected before -/
+theorem C11_sens_count_matches_solver (ops : List Op) :
+    (run b (initObj b) ops).m.hasSens = true →
+      (run b (initObj b) ops).m.sim.sens.map (fun x => x.2.length) = some (run b (initObj b) ops).m.nSens := by
+  rw [C11_net_config_state]
+  intro hs
+  have h4 := inv4_net b ops _ (inv4_init b)
+  cases hsel : (net b (initCfg b) ops).sens with
+  | none => simp [fresh, build, buildM, hsel] at hs
+  | some sel => simp [fresh, build, buildM, hsel, h4.count sel hsel]
+
+/-- **every history**: `simulate` on an empty time grid never raises and returns one row per logged output
+and — exactly when `has_sensitivities()` — one column per parameter of the sensitivity request a regular
+`simulate` makes (zero columns for a wrapper whose parameters are all fixed) -/
+theorem C11_empty_grid_shape (ops : List Op) :
+    ∃ r, (observe b (run b (initObj b) ops)).sim = some r ∧
+      (observe b (run b (initObj b) ops)).emptyGrid = some (r.log.length,
+        if (observe b (run b (initObj b) ops)).hasSens then some ((r.sens.map (fun x => x.2.length)).getD 0)
+        else none) := by
+  rw [C11_net_config_state]
+  exact emptyGrid_build b _ (inv4_net b ops _ (inv4_init b)) (redinv_net b ops _ (redinv_init b))
+    (inv_net b ops _ (inv_init_weak b)).outs
 
 /-! ## the code before bcb3fc2 -/
 
